@@ -126,6 +126,12 @@ pub fn check(h: &Hist) -> (Vec<Violation>, Stats) {
                     if *announced > 0 {
                         pulls.push(Pull { thread: r.thread, t0: r.t0, t1: r.t1, start, len: *announced as u64, rec: r });
                     }
+                    // items that a chunk yielded outside the run it announced are deliveries of their own
+                    for it in items.iter() {
+                        if it.id < start || it.id >= start + *announced as u64 {
+                            pulls.push(Pull { thread: r.thread, t0: r.t0, t1: it.t, start: it.id, len: 1, rec: r });
+                        }
+                    }
                 } else if let Some(it) = items.first() {
                     pulls.push(Pull { thread: r.thread, t0: r.t0, t1: r.t1, start: it.id, len: 1, rec: r });
                 }
